@@ -15,6 +15,7 @@ static void mon_fence(int order);
 int xv_threw; uint64_t xv_clock, xv_rmw_old; _Bool xv_cas_ok;
 #define XV_EXC_bad_hazard_era_alloc 1
 #define TSAN_MEMORY_ORDER(tsan_order, normal_order) normal_order
+#define XV_MAX(a, b) ((a) > (b) ? (a) : (b))
 
 /* ---------------- types ---------------- */
 typedef uint64_t era_t;
@@ -24,7 +25,8 @@ struct hazard_era;
  * get()/mark() return what the constructor was given; reading the other alternative yields an arbitrary value. */
 struct hev { uintptr_t w; struct hazard_era* lp; unsigned char mark; };
 struct hazard_era { struct hev value; uint64_t guard_cnt; };
-struct he_block;
+struct he_block { struct he_block* next; size_t size; };       /* dynamic strategy: header, the slots follow in memory */
+typedef struct he_block xv_block_header_t;
 struct tcb { struct hazard_era* last_hazard_era; era_t last_era; struct hazard_era eras[XV_K]; size_t total_number_of_hes; struct he_block* he_block; };
 struct obj { struct obj* next; era_t construction_era, retirement_era; int deleter; unsigned set_deleter_calls; };
 struct thread_data { struct obj* retire_list; size_t number_of_retired_nodes; struct hazard_era* hint; struct tcb* control_block; };
@@ -33,17 +35,45 @@ struct guard { mptr ptr; struct hazard_era* he; };
 #define ERA_MAX ((era_t)1 << 62)
 #define CNT_MAX ((uint64_t)1 << 62)
 
-/* ---------------- global state of the model ---------------- */
+/* ---------------- the slot universe ---------------- */
 struct tcb g_cb;                        /* the thread's control block (or the record acquire_inactive_entry will hand out) */
+#ifdef XV_DYN
+/* dynamic strategy, shape: at most two blocks exist beforehand (sizes K and K, as allocate_new_hazard_eras_block produces them), one more can be allocated */
+#define XV_NEWMAX XV_MAX(XV_K, (3 * XV_K) / 2)
+struct he_block_mem { struct he_block hdr; struct hazard_era slots[XV_NEWMAX]; };
+struct he_block_mem g_blk[2], g_new;
+unsigned g_nblk; _Bool g_new_used; size_t g_new_request;
+#define NSLOT (3 * XV_K + XV_NEWMAX)
+static struct hazard_era* SLOT(int i) {
+  if (i < XV_K) return &g_cb.eras[i];
+  if (i < 2 * XV_K) return &g_blk[0].slots[i - XV_K];
+  if (i < 3 * XV_K) return &g_blk[1].slots[i - 2 * XV_K];
+  return &g_new.slots[i - 3 * XV_K];
+}
+static _Bool slot_live(int i) {
+  if (i < XV_K) return 1;
+  if (i < 2 * XV_K) return g_nblk >= 1;
+  if (i < 3 * XV_K) return g_nblk >= 2;
+  return g_new_used && (size_t)(i - 3 * XV_K) < g_new.hdr.size;
+}
+#else
+#define NSLOT XV_K
+#define SLOT(i) (&g_cb.eras[i])
+#define slot_live(i) 1
+#endif
+#define FOR_SLOT(i, p) for (int i = 0; i < NSLOT; i++) if (slot_live(i) && (p) == SLOT(i))   /* i is a constant in the body: no symbolic array index */
+
+/* ---------------- global state of the model ---------------- */
 struct thread_data g_td;
 era_t era_clock; size_t g_number_of_active_hes; uintptr_t g_ptr_mask; int global_thread_block_list;
 mptr g_src;                             /* the concurrent_ptr acquire reads */
 struct guard ga, gb;                    /* operand guards */
-uint64_t g_others[XV_K];                /* ghost: number of live guards other than the operands that hold slot i */
+uint64_t g_others[NSLOT];               /* ghost: number of live guards other than the operands that hold slot i */
 struct obj g_obj; mptr g_obj_word; size_t g_threshold; unsigned g_scan_calls, g_acquire_entry_calls;
 
-static struct hazard_era* any_slot_or_null(void) { unsigned i = nondet_uint(); return i < XV_K ? &g_cb.eras[i] : (struct hazard_era*)0; }
-static int slot_idx(const struct hazard_era* p) { for (int i = 0; i < XV_K; i++) if (p == &g_cb.eras[i]) return i; return -1; }
+static struct hazard_era* slot_of(unsigned i) { for (int k = 0; k < NSLOT; k++) if (slot_live(k) && i == (unsigned)k) return SLOT(k); return (struct hazard_era*)0; }
+static struct hazard_era* any_slot_or_null(void) { return slot_of(nondet_uint()); }
+static _Bool in_universe(const struct hazard_era* p) { FOR_SLOT(i, p) return 1; return 0; }
 
 /* ---------------- marked_ptr<void*,1> stub ---------------- */
 static struct hev hev_make_era(uintptr_t x) {
@@ -55,7 +85,7 @@ static struct hev hev_make_link(struct hazard_era* p, uintptr_t m) { struct hev 
 #define HEV_get(v) ((v).w)
 #define HEV_get_link(v) ((v).lp)
 
-/* ---------------- call plumbing (receiver is passed as an lvalue by the lowering) ---------------- */
+/* ---------------- call plumbing (the lowering passes receivers as lvalues) ---------------- */
 static void he_set_era(struct hazard_era* self, era_t era);
 static era_t he_get_era(struct hazard_era* self);
 static uint64_t he_guards(struct hazard_era* self);
@@ -76,21 +106,51 @@ static _Bool he_is_link(struct hazard_era* self);
 static struct hazard_era* static_need_more_hes(struct tcb* self);
 static size_t static_number_of_hes(struct tcb* self);
 static struct hazard_era* static_initialize_next_block(struct tcb* self);
+static struct hazard_era* dynamic_need_more_hes(struct tcb* self);
+static size_t dynamic_number_of_hes(struct tcb* self);
+static struct hazard_era* dynamic_initialize_next_block(struct tcb* self);
+static struct hazard_era* dynamic_allocate_new_hazard_eras_block(struct tcb* self);
 static struct hazard_era* cb_begin(struct tcb* self);
 static struct hazard_era* cb_end(struct tcb* self);
 static struct hazard_era* cb_initialize_block(struct tcb* block_p);
 static void cb_initialize(struct tcb* self, struct hazard_era** hint_p);
 static struct hazard_era* cb_alloc_hazard_era(struct tcb* self, struct hazard_era** hint_p, era_t era);
 static void cb_release_hazard_era(struct tcb* self, struct hazard_era** he_p, struct hazard_era** hint_p);
+static struct hazard_era* blk_begin(struct he_block* self);
+static struct hazard_era* blk_end(struct he_block* self);
+static struct hazard_era* blk_initialize_next_block(struct he_block* self);
+static struct hazard_era* blk_initialize_block(struct he_block* block_p);
+static void blk_ctor(struct he_block* self, size_t size);
+#ifdef XV_DYN
+#define CB_need_more_hes(self) dynamic_need_more_hes(self)
+#define CB_number_of_hes(self) dynamic_number_of_hes(self)
+#define CB_initialize_next_block(b) dynamic_initialize_next_block(&(b))
+#else
 #define CB_need_more_hes(self) static_need_more_hes(self)
 #define CB_number_of_hes(self) static_number_of_hes(self)
 #define CB_initialize_next_block(b) static_initialize_next_block(&(b))
+#endif
 #define CB_begin(b) cb_begin(&(b))
 #define CB_end(b) cb_end(&(b))
+#define BLK_begin(b) blk_begin(&(b))
+#define BLK_end(b) blk_end(&(b))
+#define BLK_initialize_next_block(b) blk_initialize_next_block(&(b))
 #define CB_initialize(cb, hint) cb_initialize(&(cb), &(hint))
 #define CB_activate(cb) ((void)0)
 #define CB_alloc_hazard_era(cb, hint, era) cb_alloc_hazard_era(&(cb), &(hint), (era))
 #define CB_release_hazard_era(cb, he, hint) cb_release_hazard_era(&(cb), &(he), &(hint))
+#define XV_INIT_size(self, v) ((self)->size = (v))
+#define XV_CONSTRUCT_SLOT(it) ((it)->value.w = 0, (it)->value.lp = 0, (it)->value.mark = 0, (it)->guard_cnt = 0)   /* new (it) hazard_era: value{nullptr}, guard_cnt = 0 */
+#ifdef XV_DYN
+/* hazard_eras_block::operator new + placement new: hands out the storage g_new; the default member initialiser next = nullptr is applied here */
+static void* xv_block_new(size_t bytes) { g_new_request = bytes; g_new_used = 1; return &g_new; }
+static struct he_block* xv_block_ctor(void* buffer, size_t hes) { struct he_block* b = (struct he_block*)buffer; b->next = 0; blk_ctor(b, hes); return b; }
+#define XV_BLOCK_NEW(bytes) xv_block_new(bytes)
+#define XV_BLOCK_CTOR(buffer, hes) xv_block_ctor((buffer), (hes))
+#else
+#define XV_BLOCK_NEW(bytes) ((void*)0)
+#define XV_BLOCK_CTOR(buffer, hes) ((struct he_block*)0)
+#endif
 /* stub of thread_block_list::acquire_inactive_entry: hands out the (fresh or left-over) record g_cb */
 static struct tcb* xv_acquire_inactive_entry(void) { g_acquire_entry_calls++; return &g_cb; }
 #define TBL_acquire_inactive_entry(list) xv_acquire_inactive_entry()
@@ -145,12 +205,12 @@ static void mon_load(void* addr, int order) {
   if (addr == (void*)&era_clock) { mon_era_loads++; mon_last_era_clk = xv_clock; mon_last_era_val = era_clock; }
 }
 static void mon_store(void* addr, int order) {
-  for (int i = 0; i < XV_K; i++) if (addr == (void*)&g_cb.eras[i].value) {
-    if (g_cb.eras[i].value.mark == 0) mon_unfenced_era_store = 1;
+  for (int i = 0; i < NSLOT; i++) if (slot_live(i) && addr == (void*)&SLOT(i)->value) {
+    if (SLOT(i)->value.mark == 0) mon_unfenced_era_store = 1;          /* an era was published ... */
     if (!XV_IS_RELEASE(order)) mon_last_slot_store_release = 0;
   }
 }
-static void mon_fence(int order) { if (order == mo_seq_cst) mon_unfenced_era_store = 0; }
+static void mon_fence(int order) { if (order == mo_seq_cst) mon_unfenced_era_store = 0; }   /* ... and must be followed by a seq_cst fence */
 
 /* ---------------- invariant Inv_K ---------------- */
 static era_t slot_era(const struct hazard_era* s) { return (era_t)(s->value.w >> 1); }
@@ -159,37 +219,47 @@ struct inv_res { _Bool count_ok, rest_ok; };
 static struct inv_res inv_eval(const struct guard* a, const struct guard* b) {
   struct inv_res r; r.count_ok = 1; r.rest_ok = 1;
   if (!(era_clock >= 1 && era_clock < ERA_MAX)) r.rest_ok = 0;
-  if (a && a->he && slot_idx(a->he) < 0) r.rest_ok = 0;
-  if (b && b->he && slot_idx(b->he) < 0) r.rest_ok = 0;
+  if (a && a->he && !in_universe(a->he)) r.rest_ok = 0;
+  if (b && b->he && !in_universe(b->he)) r.rest_ok = 0;
   if (g_td.control_block == 0) {
     /* no record yet: nobody holds a slot; g_cb is what acquire_inactive_entry will return (all counts 0, cache empty) */
     if ((a && a->he) || (b && b->he)) r.count_ok = 0;
-    for (int i = 0; i < XV_K; i++) { if (g_others[i] != 0 || g_cb.eras[i].guard_cnt != 0) r.count_ok = 0; }
+    for (int i = 0; i < NSLOT; i++) if (slot_live(i)) { if (g_others[i] != 0 || SLOT(i)->guard_cnt != 0) r.count_ok = 0; }
     if (g_cb.last_hazard_era != 0) r.rest_ok = 0;
     return r;
   }
   if (g_td.control_block != &g_cb) { r.rest_ok = 0; return r; }
-  _Bool onchain[XV_K]; for (int i = 0; i < XV_K; i++) onchain[i] = 0;
+  /* the free chain: duplicate-free, inside the slot universe, null-terminated */
+  _Bool on[NSLOT]; for (int i = 0; i < NSLOT; i++) on[i] = 0;
   const struct hazard_era* p = g_td.hint;
-  for (int n = 0; n < XV_K && p != 0; n++) {
-    int j = slot_idx(p);
-    if (j < 0 || onchain[j] || !p->value.mark) { r.rest_ok = 0; return r; }
-    onchain[j] = 1; p = p->value.lp;
+  for (int n = 0; n < NSLOT && p != 0; n++) {
+    const struct hazard_era* nxt = 0; _Bool found = 0;
+    FOR_SLOT(i, p) {
+      found = 1;
+      if (on[i] || !SLOT(i)->value.mark) { r.rest_ok = 0; return r; }
+      on[i] = 1; nxt = SLOT(i)->value.lp;
+    }
+    if (!found) { r.rest_ok = 0; return r; }
+    p = nxt;
   }
   if (p != 0) { r.rest_ok = 0; return r; }
-  for (int i = 0; i < XV_K; i++) {
-    const struct hazard_era* s = &g_cb.eras[i];
+  for (int i = 0; i < NSLOT; i++) if (slot_live(i)) {
+    const struct hazard_era* s = SLOT(i);
     uint64_t cnt = g_others[i] + ((a && a->he == s) ? 1 : 0) + ((b && b->he == s) ? 1 : 0);
-    if (s->guard_cnt != cnt) r.count_ok = 0;
-    if (onchain[i] != (s->guard_cnt == 0)) r.rest_ok = 0;          /* free <=> nobody counts in it */
-    if (!onchain[i]) {                                            /* held: publishes an era, no link tag */
+    if (s->guard_cnt != cnt) r.count_ok = 0;                      /* guards(s) == number of live guards with he == s */
+    if (on[i] != (s->guard_cnt == 0)) r.rest_ok = 0;              /* free <=> nobody counts in it */
+    if (!on[i]) {                                                 /* held: publishes an era, no link tag */
       if (s->value.mark != 0) r.rest_ok = 0;
       if ((s->value.w & 1) != 0 || slot_era(s) == 0 || slot_era(s) > era_clock) r.rest_ok = 0;
     }
   }
-  if (g_cb.last_hazard_era != 0) {                                /* the last-era cache names a held slot that publishes an era >= last_era */
-    int j = slot_idx(g_cb.last_hazard_era);
-    if (j < 0 || onchain[j] || g_cb.last_era > slot_era(g_cb.last_hazard_era)) r.rest_ok = 0;
+  /* coherence of the last-era cache: it names a held slot, and last_era is an era that slot published: either it still publishes it, or
+   * the single guard holding it has moved it forward with set_era (acquire, impl:103-107), which never updates last_era - then
+   * last_era < era(slot) and, since eras requested from alloc_hazard_era never decrease, last_era cannot match a request any more. */
+  if (g_cb.last_hazard_era != 0) {
+    _Bool ok = 0;
+    FOR_SLOT(i, g_cb.last_hazard_era) ok = !on[i] && g_cb.last_era >= 1 && g_cb.last_era <= slot_era(SLOT(i));
+    if (!ok) r.rest_ok = 0;
   }
   return r;
 }
@@ -198,33 +268,44 @@ static _Bool inv_ok(const struct guard* a, const struct guard* b) { struct inv_r
 static _Bool gi1(const struct guard* g) { return MP_get(g->ptr) == 0 || g->he != 0; }
 static _Bool gi2(const struct guard* g) { return g->he == 0 || g->ptr != 0; }
 
-uint64_t g_clk0; struct tcb pre_cb; struct thread_data pre_td; struct guard pre_a, pre_b; era_t pre_clock; size_t pre_active;
+/* ---------------- pre-state snapshot and frames ---------------- */
+uint64_t g_clk0; struct hazard_era pre_s[NSLOT]; struct tcb pre_cb; struct thread_data pre_td; struct guard pre_a, pre_b; era_t pre_clock; size_t pre_active;
+static void snapshot(void) {
+  for (int i = 0; i < NSLOT; i++) pre_s[i] = *SLOT(i);
+  pre_cb.last_hazard_era = g_cb.last_hazard_era; pre_cb.last_era = g_cb.last_era; pre_cb.total_number_of_hes = g_cb.total_number_of_hes; pre_cb.he_block = g_cb.he_block;
+  pre_td = g_td; pre_a = ga; pre_b = gb; pre_clock = era_clock; pre_active = g_number_of_active_hes;
+}
 /* every slot another guard relies on still publishes the era it published before (and is not a link) */
 static _Bool others_intact(const struct guard* b) {
-  for (int i = 0; i < XV_K; i++) {
-    _Bool relied = g_others[i] >= 1 || (b && pre_b.he == &g_cb.eras[i]);
-    if (relied && (g_cb.eras[i].value.mark != 0 || g_cb.eras[i].value.w != pre_cb.eras[i].value.w)) return 0;
+  for (int i = 0; i < NSLOT; i++) if (slot_live(i)) {
+    _Bool relied = g_others[i] >= 1 || (b && pre_b.he == SLOT(i));
+    if (relied && (SLOT(i)->value.mark != 0 || SLOT(i)->value.w != pre_s[i].value.w)) return 0;
   }
   return 1;
 }
 static _Bool slot_same(int i) {
-  return g_cb.eras[i].guard_cnt == pre_cb.eras[i].guard_cnt && g_cb.eras[i].value.mark == pre_cb.eras[i].value.mark &&
-         (g_cb.eras[i].value.mark ? g_cb.eras[i].value.lp == pre_cb.eras[i].value.lp : g_cb.eras[i].value.w == pre_cb.eras[i].value.w);
+  return SLOT(i)->guard_cnt == pre_s[i].guard_cnt && SLOT(i)->value.mark == pre_s[i].value.mark &&
+         (pre_s[i].value.mark ? SLOT(i)->value.lp == pre_s[i].value.lp : SLOT(i)->value.w == pre_s[i].value.w);
 }
-static _Bool slots_same_except(int x) { for (int i = 0; i < XV_K; i++) if (i != x && !slot_same(i)) return 0; return 1; }
+static _Bool slots_same_except(const struct hazard_era* x) { for (int i = 0; i < NSLOT; i++) if (slot_live(i) && SLOT(i) != x && !slot_same(i)) return 0; return 1; }
+/* nothing changed: slots, free chain, last-era cache (both fields), record, retire list, counters */
 static _Bool cb_same(void) {
-  return slots_same_except(-1) && g_cb.last_hazard_era == pre_cb.last_hazard_era && (g_cb.last_hazard_era == 0 || g_cb.last_era == pre_cb.last_era) &&
+  return slots_same_except(0) && g_cb.last_hazard_era == pre_cb.last_hazard_era && g_cb.last_era == pre_cb.last_era &&
+         g_cb.total_number_of_hes == pre_cb.total_number_of_hes && g_cb.he_block == pre_cb.he_block &&
          g_td.hint == pre_td.hint && g_td.control_block == pre_td.control_block && g_td.retire_list == pre_td.retire_list &&
          g_td.number_of_retired_nodes == pre_td.number_of_retired_nodes && g_number_of_active_hes == pre_active;
 }
 static _Bool guard_eq(const struct guard* x, const struct guard* y) { return x->ptr == y->ptr && x->he == y->he; }
 static _Bool guard_empty(const struct guard* x) { return x->ptr == 0 && x->he == 0; }
+static uint64_t pre_cnt(const struct hazard_era* s) { FOR_SLOT(i, s) return pre_s[i].guard_cnt; return 0; }
+static era_t pre_era(const struct hazard_era* s) { FOR_SLOT(i, s) return (era_t)(pre_s[i].value.w >> 1); return 0; }
+static struct hazard_era* pre_link(const struct hazard_era* s) { FOR_SLOT(i, s) return pre_s[i].value.lp; return 0; }
+static uintptr_t pre_w(const struct hazard_era* s) { FOR_SLOT(i, s) return pre_s[i].value.w; return 0; }
 
-/* inputs (also used by the native replay programs) */
-unsigned in_K, in_op, in_hint, in_last, in_a_he, in_b_he, in_has_cb; era_t in_last_era, in_clock, in_era[XV_K]; uint64_t in_others[XV_K]; unsigned in_link[XV_K];
-mptr in_a_ptr, in_b_ptr, in_src, in_expected, in_mask; era_t in_req_era; int in_order;
+/* inputs (also used by the native replay program) */
+unsigned in_K, in_op, in_hint, in_last, in_a_he, in_b_he, in_has_cb, in_link[NSLOT], in_mark[NSLOT]; era_t in_last_era, in_clock, in_era[NSLOT]; uint64_t in_others[NSLOT];
+mptr in_a_ptr, in_b_ptr, in_src, in_expected, in_mask; era_t in_req_era; int in_order; unsigned in_self, in_rel;
 
-static struct hazard_era* slot_of(unsigned i) { return i < XV_K ? &g_cb.eras[i] : (struct hazard_era*)0; }
 static void havoc_guard(struct guard* g, unsigned* in_he, mptr* in_ptr) {
   *in_he = nondet_uint(); *in_ptr = nondet_uptr(); g->he = slot_of(*in_he); g->ptr = *in_ptr; }
 
@@ -232,18 +313,26 @@ static void havoc_guard(struct guard* g, unsigned* in_he, mptr* in_ptr) {
 static void havoc_state(const struct guard* a, const struct guard* b) {
   in_K = XV_K;
   in_has_cb = nondet_bool(); in_hint = nondet_uint(); in_last = nondet_uint(); in_last_era = nondet_u64(); in_clock = nondet_u64(); in_mask = nondet_uptr();
+#ifdef XV_DYN
+  g_nblk = nondet_uint(); XV_ASSUME(g_nblk <= 2); g_new_used = 0; g_new_request = 0;
+  g_blk[0].hdr.next = 0; g_blk[0].hdr.size = XV_K; g_blk[1].hdr.next = &g_blk[0].hdr; g_blk[1].hdr.size = XV_K;
+  g_new.hdr.next = any_slot_or_null() ? &g_blk[0].hdr : (struct he_block*)0; g_new.hdr.size = nondet_size();     /* raw storage */
+  g_cb.he_block = g_nblk == 0 ? (struct he_block*)0 : &g_blk[g_nblk - 1].hdr; g_cb.total_number_of_hes = XV_K * (1 + (size_t)g_nblk);
+#else
+  g_cb.total_number_of_hes = nondet_size(); g_cb.he_block = 0;
+#endif
   g_td.control_block = in_has_cb ? &g_cb : (struct tcb*)0; g_td.hint = slot_of(in_hint);
   g_td.retire_list = nondet_bool() ? &g_obj : (struct obj*)0; g_td.number_of_retired_nodes = nondet_size(); XV_ASSUME(g_td.number_of_retired_nodes < CNT_MAX);
-  g_cb.last_hazard_era = slot_of(in_last); g_cb.last_era = in_last_era; g_cb.total_number_of_hes = nondet_size(); g_cb.he_block = 0;
-  era_clock = in_clock; g_ptr_mask = in_mask; g_number_of_active_hes = nondet_size(); g_threshold = nondet_size();
-  for (int i = 0; i < XV_K; i++) {
-    in_others[i] = nondet_u64(); in_era[i] = nondet_u64(); in_link[i] = nondet_uint();
-    g_others[i] = in_others[i];
-    g_cb.eras[i].guard_cnt = nondet_u64();
-    g_cb.eras[i].value.mark = nondet_bool();
-    g_cb.eras[i].value.lp = slot_of(in_link[i]);
-    g_cb.eras[i].value.w = g_cb.eras[i].value.mark ? nondet_uptr() : (uintptr_t)(in_era[i] << 1);
+  g_cb.last_hazard_era = slot_of(in_last); g_cb.last_era = in_last_era;
+  era_clock = in_clock; g_ptr_mask = in_mask; g_number_of_active_hes = nondet_size(); XV_ASSUME(g_number_of_active_hes < CNT_MAX); g_threshold = nondet_size();
+  for (int i = 0; i < NSLOT; i++) {
+    in_others[i] = nondet_u64(); in_era[i] = nondet_u64(); in_link[i] = nondet_uint(); in_mark[i] = nondet_bool();
     XV_ASSUME(in_era[i] < ERA_MAX && in_others[i] < CNT_MAX);   /* fewer than 2^62 guard objects */
+    g_others[i] = slot_live(i) ? in_others[i] : 0;
+    SLOT(i)->guard_cnt = nondet_u64();
+    SLOT(i)->value.mark = in_mark[i];
+    SLOT(i)->value.lp = slot_of(in_link[i]);
+    SLOT(i)->value.w = in_mark[i] ? nondet_uptr() : (uintptr_t)(in_era[i] << 1);
   }
   g_obj.next = 0; g_obj.construction_era = nondet_u64(); g_obj.retirement_era = nondet_u64(); g_obj.deleter = nondet_int(); g_obj.set_deleter_calls = 0;
   g_src = nondet_uptr(); g_scan_calls = 0; g_acquire_entry_calls = 0; xv_threw = 0; xv_clock = nondet_u64(); XV_ASSUME(xv_clock < CNT_MAX);
@@ -251,7 +340,7 @@ static void havoc_state(const struct guard* a, const struct guard* b) {
   XV_ASSUME(inv_ok(a, b));
   if (a) XV_ASSUME(gi1(a) && gi2(a));
   if (b) XV_ASSUME(gi1(b) && gi2(b));
-  pre_cb = g_cb; pre_td = g_td; pre_a = ga; pre_b = gb; pre_clock = era_clock; pre_active = g_number_of_active_hes;
+  snapshot();
 }
 
 /* checks common to every exit of every guard operation */
@@ -269,13 +358,12 @@ static void chk_exit(const struct guard* a, const struct guard* b) {
    && order != mo_relaxed && order != mo_consume && !mon_unfenced_era_store && mon_last_slot_store_release && xv_clock >= g_clk0 && era_clock >= pre_clock)
 #define XV_HAVOC_ACQ acq_havoc(); XV_ASSUME(xv_clock < CNT_MAX && mon_src_loads < CNT_MAX && mon_era_loads < CNT_MAX); self->he = any_slot_or_null(); self->ptr = nondet_uptr(); prev_era = nondet_u64()
 static void acq_havoc(void) {
-  for (int i = 0; i < XV_K; i++) {
-    g_cb.eras[i].guard_cnt = nondet_u64(); g_cb.eras[i].value.mark = nondet_bool(); g_cb.eras[i].value.lp = any_slot_or_null(); g_cb.eras[i].value.w = nondet_uptr();
+  for (int i = 0; i < NSLOT; i++) {
+    SLOT(i)->guard_cnt = nondet_u64(); SLOT(i)->value.mark = nondet_bool(); SLOT(i)->value.lp = any_slot_or_null(); SLOT(i)->value.w = nondet_uptr();
   }
   g_cb.last_hazard_era = any_slot_or_null(); g_cb.last_era = nondet_u64();
   g_td.hint = any_slot_or_null(); g_td.control_block = nondet_bool() ? &g_cb : (struct tcb*)0;
   g_number_of_active_hes = nondet_size(); g_acquire_entry_calls = nondet_uint();
-  ga.he = any_slot_or_null(); ga.ptr = nondet_uptr();
   g_src = nondet_uptr(); era_clock = nondet_u64(); xv_clock = nondet_u64();
   mon_src_loads = nondet_u64(); mon_era_loads = nondet_u64(); mon_first_src_clk = nondet_u64(); mon_last_src_clk = nondet_u64(); mon_last_era_clk = nondet_u64();
   mon_first_src_val = nondet_uptr(); mon_last_src_val = nondet_uptr(); mon_last_era_val = nondet_u64(); mon_first_src_order = nondet_int(); mon_last_src_order = nondet_int();
@@ -284,37 +372,38 @@ static void acq_havoc(void) {
 
 #include "lowered.h"
 
-/* =====================================================  slot level  ===================================================== */
-static int chain_pos(const struct hazard_era* s) {      /* position of s on the free chain, -1 if not on it */
-  const struct hazard_era* p = g_td.hint;
-  for (int n = 0; n < XV_K && p != 0; n++) { if (p == s) return n; p = p->value.lp; }
-  return -1;
-}
+#ifndef XV_OPS_LO
+#define XV_OPS_LO 0
+#define XV_OPS_HI 99
+#endif
+#define XV_IN_GROUP(n) ((n) >= XV_OPS_LO && (n) <= XV_OPS_HI)     /* a run covers a group of operations */
 
+/* =====================================================  slot level  ===================================================== */
+#ifndef XV_DYN
+/* alloc_hazard_era(era) from every state of Inv_K.  era was read from the era clock after every era this thread published. */
 static void h_alloc(void) {
   havoc_state(0, 0);
   in_req_era = nondet_u64();
   XV_ASSUME(in_req_era >= 1 && in_req_era <= era_clock);
-  /* the requested era was read from the era clock after every era this thread has published */
   if (g_td.control_block != 0 && g_cb.last_hazard_era != 0) XV_ASSUME(in_req_era >= slot_era(g_cb.last_hazard_era));
   struct hazard_era* r = td_alloc_hazard_era(&g_td, in_req_era);
   _Bool had_cb = pre_td.control_block != 0;
   _Bool share = had_cb && pre_cb.last_hazard_era != 0 && pre_cb.last_era == in_req_era;
   if (xv_threw) {
     XV_OBL("he.alloc.k_available", had_cb && !share && pre_td.hint == 0);      /* throws only when no slot is free and none can be shared */
-    XV_OBL("he.alloc.exhausted_throws", xv_threw == XV_EXC_bad_hazard_era_alloc && r == 0 && cb_same() && inv_ok(0, 0));
+    XV_OBL("he.alloc.exhausted_throws", xv_threw == XV_EXC_bad_hazard_era_alloc && r == 0 && cb_same() && inv_ok(0, 0));   /* nothing changed, cache included */
     XV_CANARY("alloc.throw");
   } else {
-    XV_OBL("he.alloc.k_available", r != 0 && slot_idx(r) >= 0);
-    int j = slot_idx(r); XV_ASSUME(j >= 0 && j < XV_K);
-    XV_OBL("he.alloc.publishes_era", r->value.mark == 0 && slot_era(r) == in_req_era);
-    XV_OBL("he.alloc.frame", (!had_cb || slots_same_except(j)) && r->guard_cnt == (had_cb ? pre_cb.eras[j].guard_cnt : 0) + 1);
+    XV_OBL("he.alloc.k_available", r != 0 && in_universe(r));
+    XV_ASSUME(in_universe(r));
+    XV_OBL("he.alloc.era_matches", r->value.mark == 0 && slot_era(r) == in_req_era);     /* fast path and slow path */
+    XV_OBL("he.alloc.frame", (!had_cb || slots_same_except(r)) && r->guard_cnt == (had_cb ? pre_cnt(r) : 0) + 1);
     if (share) {
-      XV_OBL("he.alloc.shares_same_era", r == pre_cb.last_hazard_era && g_td.hint == pre_td.hint && r->value.w == pre_cb.eras[j].value.w &&
+      XV_OBL("he.alloc.shares_same_era", r == pre_cb.last_hazard_era && g_td.hint == pre_td.hint && r->value.w == pre_w(r) &&
              g_cb.last_hazard_era == pre_cb.last_hazard_era && g_cb.last_era == pre_cb.last_era);
       XV_CANARY("alloc.share");
     } else if (had_cb) {
-      XV_OBL("he.alloc.takes_chain_head", r == pre_td.hint && g_td.hint == pre_cb.eras[j].value.lp && r->guard_cnt == 1 &&
+      XV_OBL("he.alloc.takes_chain_head", r == pre_td.hint && g_td.hint == pre_link(r) && r->guard_cnt == 1 &&
              g_cb.last_hazard_era == r && g_cb.last_era == in_req_era && g_acquire_entry_calls == 0);
       XV_CANARY("alloc.fresh");
     } else {
@@ -322,7 +411,7 @@ static void h_alloc(void) {
              r == &g_cb.eras[0] && g_td.hint == (XV_K > 1 ? &g_cb.eras[1] : (struct hazard_era*)0));
       XV_CANARY("alloc.first_use");
     }
-    g_others[j]++;                                   /* the caller becomes a live guard on r */
+    FOR_SLOT(j, r) g_others[j]++;                    /* the caller becomes a live guard on r */
     struct inv_res res = inv_eval(0, 0);
     XV_OBL("he.count.exact", res.count_ok);
     XV_OBL("he.guard_ops.preserve_inv", res.rest_ok);
@@ -332,22 +421,22 @@ static void h_alloc(void) {
 
 static void h_release(void) {
   havoc_state(0, 0);
-  unsigned s = nondet_uint(); in_a_he = s;
-  struct hazard_era* he = slot_of(s);
-  if (he) { XV_ASSUME(g_others[s] >= 1); g_others[s]--; }           /* the releasing guard is one of the live guards on s */
+  in_rel = nondet_uint();
+  struct hazard_era* he = slot_of(in_rel);
+  FOR_SLOT(s, he) { XV_ASSUME(g_others[s] >= 1); g_others[s]--; }   /* the releasing guard is one of the live guards on the slot */
   struct hazard_era* he0 = he;
   td_release_hazard_era(&g_td, &he);
   XV_OBL("he.release.returns_slot", he == 0 && !xv_threw);
   if (he0 == 0) { XV_OBL("he.release.returns_slot", cb_same()); XV_CANARY("release.null"); }
   else {
-    XV_OBL("he.release.returns_slot", slots_same_except(s) && he0->guard_cnt == pre_cb.eras[s].guard_cnt - 1);
-    if (pre_cb.eras[s].guard_cnt == 1) {
+    XV_OBL("he.release.returns_slot", slots_same_except(he0) && he0->guard_cnt == pre_cnt(he0) - 1);
+    if (pre_cnt(he0) == 1) {
       XV_OBL("he.release.returns_slot", g_td.hint == he0 && he0->value.mark == 1 && he0->value.lp == pre_td.hint &&
              g_cb.last_hazard_era == (pre_cb.last_hazard_era == he0 ? (struct hazard_era*)0 : pre_cb.last_hazard_era));
       XV_CANARY("release.to_zero");
     } else {
-      XV_OBL("he.release.returns_slot", g_td.hint == pre_td.hint && slot_era(he0) == slot_era(&pre_cb.eras[s]) && he0->value.mark == 0 &&
-             g_cb.last_hazard_era == pre_cb.last_hazard_era);
+      XV_OBL("he.release.returns_slot", g_td.hint == pre_td.hint && he0->value.w == pre_w(he0) && he0->value.mark == 0 &&
+             g_cb.last_hazard_era == pre_cb.last_hazard_era && g_cb.last_era == pre_cb.last_era);
       XV_CANARY("release.shared");
     }
     struct inv_res res = inv_eval(0, 0);
@@ -357,39 +446,50 @@ static void h_release(void) {
   }
 }
 
-/* initialize on an arbitrary left-over record: every slot ends up on the free chain */
-static void h_initialize(void) {
-  havoc_state(0, 0);
-  for (int i = 0; i < XV_K; i++) { XV_ASSUME(g_cb.eras[i].guard_cnt == 0); g_others[i] = 0; }
-  XV_ASSUME(g_number_of_active_hes < CNT_MAX);
-  size_t act = g_number_of_active_hes;
-  cb_initialize(&g_cb, &g_td.hint);
-  g_td.control_block = &g_cb; g_cb.last_hazard_era = 0;
-  _Bool ok = g_td.hint == &g_cb.eras[0];
-  for (int i = 0; i < XV_K; i++) ok = ok && g_cb.eras[i].value.mark == 1 && g_cb.eras[i].value.lp == (i + 1 < XV_K ? &g_cb.eras[i + 1] : (struct hazard_era*)0) && g_cb.eras[i].guard_cnt == 0;
-  XV_OBL("he.initialize.all_free", ok && g_number_of_active_hes == act + XV_K && inv_ok(0, 0) && !xv_threw);
-  XV_CANARY("initialize.done");
-}
-
 /* from "all free": K allocations with pairwise different eras succeed and return pairwise different slots; one more throws */
 static void h_alloc_k(void) {
   havoc_state(0, 0);
   XV_ASSUME(g_td.control_block != 0);
   for (int i = 0; i < XV_K; i++) XV_ASSUME(g_cb.eras[i].guard_cnt == 0);
-  XV_ASSUME(era_clock > XV_K + 1);
   struct hazard_era* got[XV_K + 1]; era_t e = nondet_u64(); XV_ASSUME(e >= 1 && e < ERA_MAX && e + XV_K + 1 <= era_clock);
   _Bool ok = 1;
   for (int i = 0; i < XV_K; i++) {
     got[i] = td_alloc_hazard_era(&g_td, e + i);
-    ok = ok && !xv_threw && got[i] != 0 && slot_idx(got[i]) >= 0 && got[i]->value.mark == 0 && slot_era(got[i]) == e + i && got[i]->guard_cnt == 1;
+    ok = ok && !xv_threw && got[i] != 0 && in_universe(got[i]);
+    XV_ASSUME(got[i] == 0 || in_universe(got[i]));
+    ok = ok && got[i]->value.mark == 0 && slot_era(got[i]) == e + i && got[i]->guard_cnt == 1;
     for (int j = 0; j < i; j++) ok = ok && got[j] != got[i];
   }
-  XV_OBL("he.alloc.k_available", ok);
   for (int i = 0; i < XV_K; i++) ok = ok && slot_era(got[i]) == e + i;      /* earlier allocations were not disturbed by later ones */
   XV_OBL("he.alloc.k_available", ok);
   got[XV_K] = td_alloc_hazard_era(&g_td, e + XV_K);
   XV_OBL("he.alloc.exhausted_throws", xv_threw == XV_EXC_bad_hazard_era_alloc && got[XV_K] == 0);
   XV_CANARY("alloc_k.done");
+}
+#endif
+
+/* initialize on an arbitrary left-over record: every slot (of every block) ends up on the free chain exactly once */
+static void h_initialize(void) {
+  havoc_state(0, 0);
+  for (int i = 0; i < NSLOT; i++) { XV_ASSUME(SLOT(i)->guard_cnt == 0); g_others[i] = 0; SLOT(i)->value.w = nondet_uptr(); SLOT(i)->value.lp = any_slot_or_null(); SLOT(i)->value.mark = nondet_bool(); }
+  size_t act = g_number_of_active_hes;
+  g_td.hint = any_slot_or_null();
+  cb_initialize(&g_cb, &g_td.hint);
+  g_td.control_block = &g_cb; g_cb.last_hazard_era = 0;
+  /* expected chain: the record's own K slots, then the blocks from the newest to the oldest, each in address order */
+  _Bool ok = 1; const struct hazard_era* p = g_td.hint; unsigned n = 0;
+  for (int i = 0; i < XV_K; i++) { ok = ok && p == &g_cb.eras[i] && p->value.mark == 1 && p->guard_cnt == 0; if (ok) p = p->value.lp; n++; }
+#ifdef XV_DYN
+  for (int b = 1; b >= 0; b--) if ((int)g_nblk > b)
+    for (int i = 0; i < XV_K; i++) { ok = ok && p == &g_blk[b].slots[i] && p->value.mark == 1 && p->guard_cnt == 0; if (ok) p = p->value.lp; n++; }
+  XV_OBL("he.initialize.all_free", g_number_of_active_hes == act + XV_K * (1 + (size_t)g_nblk) && g_cb.total_number_of_hes == XV_K * (1 + (size_t)g_nblk));
+  if (g_nblk == 2) XV_CANARY("initialize.two_blocks");
+  if (g_nblk == 0) XV_CANARY("initialize.no_block");
+#else
+  XV_OBL("he.initialize.all_free", g_number_of_active_hes == act + XV_K);
+#endif
+  XV_OBL("he.initialize.all_free", ok && p == 0 && !xv_threw && inv_ok(0, 0));
+  XV_CANARY("initialize.done");
 }
 
 static void h_slot(void) {
@@ -413,20 +513,83 @@ static void h_slot(void) {
   XV_OBL("he.slot.roundtrip", he_guards(&s) == c0 && he_add_guard(&s) == c0 + 1 && he_guards(&s) == c0 + 1 && he_release_guard(&s) == c0 && he_release_guard(&s) == c0 - 1 && he_guards(&s) == c0 - 1);
 }
 
+#ifdef XV_DYN
+/* dynamic strategy: alloc_hazard_era never throws; with an empty free chain a new block is allocated */
+static void h_dyn_alloc(void) {
+  havoc_state(0, 0);
+  XV_ASSUME(g_td.control_block != 0);
+  in_req_era = nondet_u64();
+  XV_ASSUME(in_req_era >= 1 && in_req_era <= era_clock);
+  if (g_cb.last_hazard_era != 0) XV_ASSUME(in_req_era >= slot_era(g_cb.last_hazard_era));
+  size_t total0 = g_cb.total_number_of_hes; struct he_block* head0 = g_cb.he_block;
+  struct hazard_era* r = td_alloc_hazard_era(&g_td, in_req_era);
+  _Bool share = pre_cb.last_hazard_era != 0 && pre_cb.last_era == in_req_era;
+  XV_OBL("he.dyn.never_throws", !xv_threw && r != 0 && in_universe(r));
+  XV_ASSUME(!xv_threw && in_universe(r));
+  XV_OBL("he.alloc.era_matches", r->value.mark == 0 && slot_era(r) == in_req_era);
+  if (!share && pre_td.hint == 0) {
+    size_t hes = XV_MAX((size_t)XV_K, total0 / 2);
+    XV_OBL("he.dyn.new_block", g_new_used && g_new_request == sizeof(struct he_block) + hes * sizeof(struct hazard_era) && hes <= XV_NEWMAX && g_new.hdr.size == hes);
+    XV_OBL("he.dyn.new_block", g_cb.total_number_of_hes == total0 + hes && g_number_of_active_hes == pre_active + hes &&
+           g_cb.he_block == &g_new.hdr && g_new.hdr.next == head0);
+    XV_OBL("he.dyn.new_block", r == &g_new.slots[0] && r->guard_cnt == 1 && g_td.hint == (hes > 1 ? &g_new.slots[1] : (struct hazard_era*)0));
+    _Bool old_same = 1; for (int i = 0; i < 3 * XV_K; i++) if (slot_live(i)) old_same = old_same && slot_same(i);
+    XV_OBL("he.dyn.new_block", old_same);
+    XV_CANARY("dyn.new_block");
+    if (g_nblk == 2) XV_CANARY("dyn.third_block");
+  } else {
+    XV_OBL("he.dyn.new_block", !g_new_used && g_cb.total_number_of_hes == total0 && g_cb.he_block == head0 && g_number_of_active_hes == pre_active && slots_same_except(r));
+    XV_CANARY("dyn.no_new_block");
+  }
+  FOR_SLOT(j, r) g_others[j]++;
+  struct inv_res res = inv_eval(0, 0);
+  XV_OBL("he.count.exact", res.count_ok);
+  XV_OBL("he.guard_ops.preserve_inv", res.rest_ok);
+  XV_OBL("he.guard_ops.others_intact", others_intact(0));
+}
+void h_dyn(void) {
+  in_op = nondet_uint();
+#if XV_IN_GROUP(0)
+  if (in_op == 0) h_dyn_alloc();
+#endif
+#if XV_IN_GROUP(1)
+  if (in_op == 1) h_initialize();
+#endif
+}
+#else
 void h_slots(void) {
   in_op = nondet_uint();
-  switch (in_op) {
-    case 0: h_alloc(); break;
-    case 1: h_release(); break;
-    case 2: h_initialize(); break;
-    case 3: h_alloc_k(); break;
-    default: h_slot(); break;
-  }
+#if XV_IN_GROUP(0)
+  if (in_op == 0) h_alloc();
+#endif
+#if XV_IN_GROUP(1)
+  if (in_op == 1) h_release();
+#endif
+#if XV_IN_GROUP(2)
+  if (in_op == 2) h_initialize();
+#endif
+#if XV_IN_GROUP(3)
+  if (in_op == 3) h_alloc_k();
+#endif
+#if XV_IN_GROUP(4)
+  if (in_op == 4) h_slot();
+#endif
 }
+#endif
 
+#ifndef XV_DYN
 /* =====================================================  guard level (SEQ)  ===================================================== */
-/* expected count of slot i after an operation, from the pre-state and the operands' new slots */
 static void chk_guard_pair(void) { chk_exit(&ga, &gb); XV_OBL("he.guard_ops.holds_slot_iff_protecting", gi1(&ga) && gi1(&gb)); }
+
+/* the slot a guard gives up: count-1, back on the chain head exactly when the count drops to 0 */
+static void chk_released(const struct hazard_era* old, _Bool took_new_slot) {
+  if (old == 0) return;
+  XV_ASSUME(in_universe(old));
+  uint64_t c = pre_cnt(old) - 1;
+  XV_OBL("he.release.returns_slot", old->guard_cnt == c);
+  if (c == 0) XV_OBL("he.release.returns_slot", g_td.hint == old && old->value.mark == 1 && old->value.lp == pre_td.hint);
+  else XV_OBL("he.release.returns_slot", old->value.mark == 0 && old->value.w == pre_w(old) && (took_new_slot || g_td.hint == pre_td.hint));
+}
 
 static void op_ctor_ptr(void) {
   havoc_guard(&gb, &in_b_he, &in_b_ptr); havoc_state(0, &gb);
@@ -449,9 +612,9 @@ static void op_ctor_copy(void) {
   havoc_guard(&gb, &in_b_he, &in_b_ptr); havoc_state(0, &gb);
   ga.ptr = nondet_uptr(); ga.he = any_slot_or_null();
   g_ctor_copy(&ga, &gb);
-  XV_OBL("he.copy.shares", !xv_threw && guard_eq(&ga, &pre_b) && guard_eq(&gb, &pre_b) && g_td.hint == pre_td.hint && g_cb.last_hazard_era == pre_cb.last_hazard_era);
-  if (gb.he) { int j = slot_idx(gb.he); XV_ASSUME(j >= 0 && j < XV_K);
-    XV_OBL("he.copy.shares", gb.he->guard_cnt == pre_cb.eras[j].guard_cnt + 1 && slots_same_except(j)); XV_CANARY("copy.shared"); }
+  XV_OBL("he.copy.shares", !xv_threw && guard_eq(&ga, &pre_b) && guard_eq(&gb, &pre_b) && g_td.hint == pre_td.hint &&
+         g_cb.last_hazard_era == pre_cb.last_hazard_era && g_cb.last_era == pre_cb.last_era);
+  if (gb.he) { XV_OBL("he.copy.shares", gb.he->guard_cnt == pre_cnt(gb.he) + 1 && gb.he->value.w == pre_w(gb.he) && slots_same_except(gb.he)); XV_CANARY("copy.shared"); }
   else { XV_OBL("he.copy.shares", cb_same()); XV_CANARY("copy.empty"); }
   chk_guard_pair(); XV_OBL("he.guard_ops.empty_holds_no_slot", gi2(&ga) && gi2(&gb));
 }
@@ -465,19 +628,10 @@ static void op_ctor_move(void) {
   if (ga.he) XV_CANARY("move.held"); else XV_CANARY("move.empty");
 }
 
-/* the slot a guard gives up: count-1, back on the chain head exactly when the count drops to 0 */
-static void chk_released(const struct hazard_era* old, _Bool took_new_slot) {
-  if (old == 0) return;
-  int j = slot_idx(old); XV_ASSUME(j >= 0 && j < XV_K);
-  uint64_t c = pre_cb.eras[j].guard_cnt - 1;
-  XV_OBL("he.release.returns_slot", old->guard_cnt == c);
-  if (c == 0) XV_OBL("he.release.returns_slot", g_td.hint == old && old->value.mark == 1 && old->value.lp == pre_td.hint);
-  else XV_OBL("he.release.returns_slot", old->value.mark == 0 && old->value.w == pre_cb.eras[j].value.w && (took_new_slot || g_td.hint == pre_td.hint));
-}
-
 static void op_assign_copy(void) {
   havoc_guard(&ga, &in_a_he, &in_a_ptr); havoc_guard(&gb, &in_b_he, &in_b_ptr);
-  if (nondet_bool()) {                                     /* self assignment */
+  in_self = nondet_bool();
+  if (in_self) {                                           /* self assignment */
     havoc_state(&ga, 0);
     struct guard* r = g_assign_copy(&ga, &ga);
     XV_OBL("he.self_assign.noop", r == &ga && !xv_threw && guard_eq(&ga, &pre_a) && cb_same());
@@ -489,7 +643,7 @@ static void op_assign_copy(void) {
   XV_OBL("he.copy.shares", r == &ga && !xv_threw && guard_eq(&ga, &pre_b) && guard_eq(&gb, &pre_b));
   if (pre_a.he != pre_b.he) {
     chk_released(pre_a.he, 0);
-    if (pre_b.he) { int j = slot_idx(pre_b.he); XV_ASSUME(j >= 0 && j < XV_K); XV_OBL("he.copy.shares", pre_b.he->guard_cnt == pre_cb.eras[j].guard_cnt + 1); }
+    if (pre_b.he) XV_OBL("he.copy.shares", pre_b.he->guard_cnt == pre_cnt(pre_b.he) + 1);
     XV_CANARY("assign_copy.other_slot");
   } else { XV_OBL("he.copy.shares", cb_same()); if (pre_a.he) XV_CANARY("assign_copy.same_slot"); }
   chk_guard_pair(); XV_OBL("he.guard_ops.empty_holds_no_slot", gi2(&ga) && gi2(&gb));
@@ -497,7 +651,8 @@ static void op_assign_copy(void) {
 
 static void op_assign_move(void) {
   havoc_guard(&ga, &in_a_he, &in_a_ptr); havoc_guard(&gb, &in_b_he, &in_b_ptr);
-  if (nondet_bool()) {
+  in_self = nondet_bool();
+  if (in_self) {
     havoc_state(&ga, 0);
     struct guard* r = g_assign_move(&ga, &ga);
     XV_OBL("he.self_assign.noop", r == &ga && !xv_threw && guard_eq(&ga, &pre_a) && cb_same());
@@ -509,10 +664,7 @@ static void op_assign_move(void) {
   XV_OBL("he.move.empties_source", r == &ga && !xv_threw && guard_eq(&ga, &pre_b) && guard_empty(&gb));
   chk_released(pre_a.he, 0);
   if (pre_a.he == 0) XV_OBL("he.move.empties_source", cb_same());
-  /* gb gave its protection to ga: the slot pre_b relied on must still publish its era */
-  struct guard none = {0, 0}; struct inv_res res = inv_eval(&ga, &none);
-  XV_OBL("he.count.exact", res.count_ok); XV_OBL("he.guard_ops.preserve_inv", res.rest_ok);
-  XV_OBL("he.guard_ops.others_intact", others_intact(&gb));
+  chk_exit(&ga, &gb);                /* others_intact(&gb): the slot gb handed over to ga still publishes its era */
   XV_OBL("he.guard_ops.holds_slot_iff_protecting", gi1(&ga) && gi2(&ga));
   XV_CANARY("assign_move.other");
 }
@@ -521,15 +673,14 @@ static void op_reset(void) {
   havoc_guard(&ga, &in_a_he, &in_a_ptr); havoc_guard(&gb, &in_b_he, &in_b_ptr); havoc_state(&ga, &gb);
   _Bool dtor = nondet_bool();
   if (dtor) g_dtor(&ga); else g_reset(&ga);
-  XV_OBL("he.reset.releases", !xv_threw && guard_empty(&ga) && guard_eq(&gb, &pre_b));
+  XV_OBL("he.reset.releases", !xv_threw && guard_empty(&ga) && guard_eq(&gb, &pre_b) && slots_same_except(pre_a.he));
   chk_released(pre_a.he, 0);
   if (pre_a.he == 0) { XV_OBL("he.reset.releases", cb_same()); XV_CANARY("reset.empty"); }
   else if (g_td.hint == pre_a.he) XV_CANARY("reset.to_zero"); else XV_CANARY("reset.shared");
   if (dtor) { chk_exit(0, &gb); XV_CANARY("reset.dtor"); } else chk_guard_pair();
   /* a second reset changes nothing */
-  struct tcb cb1 = g_cb; struct thread_data td1 = g_td;
+  snapshot();
   g_reset(&ga);
-  pre_cb = cb1; pre_td = td1;
   XV_OBL("he.reset.idempotent", !xv_threw && guard_empty(&ga) && cb_same() && guard_eq(&gb, &pre_b));
 }
 
@@ -558,9 +709,9 @@ static void op_reclaim(void) {
   if (g_scan_calls) XV_CANARY("reclaim.scan"); else XV_CANARY("reclaim.noscan");
 }
 
-/* when does a (re-)acquisition need a slot it cannot get */
+/* a (re-)acquisition at era `era` needs a slot from the chain: its own slot cannot be kept and nothing can be shared */
 static _Bool needs_fresh_slot(era_t era) {
-  _Bool own_reusable = pre_a.he != 0 && (slot_era(&pre_cb.eras[slot_idx(pre_a.he) < 0 ? 0 : slot_idx(pre_a.he)]) == era || pre_cb.eras[slot_idx(pre_a.he) < 0 ? 0 : slot_idx(pre_a.he)].guard_cnt == 1);
+  _Bool own_reusable = pre_a.he != 0 && (pre_era(pre_a.he) == era || pre_cnt(pre_a.he) == 1);
   _Bool share = pre_td.control_block != 0 && pre_cb.last_hazard_era != 0 && pre_cb.last_era == era;
   return !own_reusable && !share;
 }
@@ -572,33 +723,36 @@ static void op_acquire(void) {
   XV_OBL("he.guard_ops.operand_frame", guard_eq(&gb, &pre_b) && g_src == in_src && era_clock == pre_clock);
   if (xv_threw) {
     XV_OBL("he.alloc.exhausted_throws", xv_threw == XV_EXC_bad_hazard_era_alloc && needs_fresh_slot(pre_clock) && pre_td.hint == 0 && pre_td.control_block != 0);
+    XV_OBL("he.acquire.null_holds_no_slot", MP_get(in_src) != 0);      /* nothing to protect: no slot needed, so no exception either */
     chk_exit(&ga, &gb);
-    XV_OBL("he.acquire.exc_safe", gi1(&ga));       /* after the throw the guard does not name an object it no longer protects */
+    /* after the throw the guard neither names an object it no longer protects nor a slot it does not count in */
+    struct inv_res res = inv_eval(&ga, &gb);
+    XV_OBL("he.acquire.exc_safe", gi1(&ga) && res.count_ok);
     XV_CANARY("acquire.throw");
   } else {
-    XV_OBL("he.alloc.k_available", 1);
     XV_OBL("he.acquire.snapshot", ga.ptr == in_src);
     if (MP_get(in_src) != 0) XV_OBL("he.acquire.era_stable", ga.he != 0 && ga.he->value.mark == 0 && slot_era(ga.he) == era_clock);
     XV_OBL("he.acquire.null_holds_no_slot", gi2(&ga));
     chk_guard_pair();
     if (pre_a.he != 0 && ga.he != pre_a.he) chk_released(pre_a.he, 1);
-    if (pre_a.he != 0 && ga.he == pre_a.he && slot_era(&pre_cb.eras[slot_idx(pre_a.he) < 0 ? 0 : slot_idx(pre_a.he)]) != era_clock) XV_CANARY("acquire.reuse_own");
-    if (pre_a.he != 0 && ga.he != pre_a.he) XV_CANARY("acquire.left_shared");
-    if (pre_a.he == 0 && ga.he == gb.he) XV_CANARY("acquire.share_last");
+    if (pre_a.he != 0 && ga.he == pre_a.he && pre_era(pre_a.he) != era_clock) XV_CANARY("acquire.reuse_own");
+    if (pre_a.he != 0 && ga.he != pre_a.he && ga.he != 0) XV_CANARY("acquire.left_shared");
+    if (pre_a.he == 0 && ga.he == gb.he && ga.he != 0) XV_CANARY("acquire.share_last");
     if (in_src == 0) XV_CANARY("acquire.null");
   }
 }
 
 static void op_acquire_if_equal(void) {
   havoc_guard(&ga, &in_a_he, &in_a_ptr); havoc_guard(&gb, &in_b_he, &in_b_ptr); havoc_state(&ga, &gb);
-  in_src = g_src; in_expected = nondet_uptr(); in_order = nondet_int(); XV_ASSUME(in_order == mo_relaxed || in_order == mo_consume || in_order == mo_acquire || in_order == mo_seq_cst);   /* orders valid for a load */
+  in_src = g_src; in_expected = nondet_uptr(); in_order = nondet_int(); XV_ASSUME(in_order == mo_relaxed || in_order == mo_consume || in_order == mo_acquire || in_order == mo_seq_cst);
   _Bool r = g_acquire_if_equal(&ga, &g_src, in_expected, in_order);
   XV_OBL("he.guard_ops.operand_frame", guard_eq(&gb, &pre_b) && g_src == in_src && era_clock == pre_clock);
   if (xv_threw) {
     XV_OBL("he.alloc.exhausted_throws", xv_threw == XV_EXC_bad_hazard_era_alloc && in_src == in_expected && in_src != 0 && pre_td.hint == 0 && pre_td.control_block != 0 &&
-           !(pre_a.he != 0 && pre_cb.eras[slot_idx(pre_a.he) < 0 ? 0 : slot_idx(pre_a.he)].guard_cnt == 1));
+           !(pre_a.he != 0 && pre_cnt(pre_a.he) == 1));
     chk_exit(&ga, &gb);
-    XV_OBL("he.acquire_if_equal.exc_safe", gi1(&ga));
+    struct inv_res res = inv_eval(&ga, &gb);
+    XV_OBL("he.acquire_if_equal.exc_safe", gi1(&ga) && res.count_ok);
     XV_CANARY("aie.throw");
   } else {
     XV_OBL("he.acquire_if_equal.iff", r == (in_src == in_expected));
@@ -612,11 +766,6 @@ static void op_acquire_if_equal(void) {
   }
 }
 
-#ifndef XV_OPS_LO
-#define XV_OPS_LO 0
-#define XV_OPS_HI 9
-#endif
-#define XV_IN_GROUP(n) ((n) >= XV_OPS_LO && (n) <= XV_OPS_HI)     /* a run covers a group of operations */
 void h_guards(void) {
   in_op = nondet_uint();
 #if XV_IN_GROUP(0)
@@ -655,19 +804,17 @@ void h_guards(void) {
 void h_int(void) {
 #ifdef XV_INT
   havoc_guard(&ga, &in_a_he, &in_a_ptr); havoc_guard(&gb, &in_b_he, &in_b_ptr); havoc_state(&ga, &gb);
-  in_order = nondet_int(); XV_ASSUME(in_order == mo_relaxed || in_order == mo_consume || in_order == mo_acquire || in_order == mo_seq_cst);   /* orders valid for a load */
+  in_order = nondet_int(); XV_ASSUME(in_order == mo_relaxed || in_order == mo_consume || in_order == mo_acquire || in_order == mo_seq_cst);
   g_clk0 = xv_clock;
   in_op = nondet_uint();
-#ifndef XV_INT_OP
-#define XV_INT_OP 2
-#endif
-#if XV_INT_OP != 1
+#if XV_IN_GROUP(0)
   if (in_op == 0) {
     env_on = 1; g_acquire(&ga, &g_src, in_order); env_on = 0;
     XV_OBL("he.guard_ops.operand_frame", guard_eq(&gb, &pre_b));
     if (xv_threw) {
       chk_exit(&ga, &gb);
-      XV_OBL("he.acquire.exc_safe", xv_threw == XV_EXC_bad_hazard_era_alloc && gi1(&ga));
+      struct inv_res res = inv_eval(&ga, &gb);
+      XV_OBL("he.acquire.exc_safe", xv_threw == XV_EXC_bad_hazard_era_alloc && gi1(&ga) && res.count_ok && g_td.hint == 0);
       XV_CANARY("int.acquire.throw");
     } else {
       XV_OBL("he.acquire.snapshot", mon_src_loads >= 1 && mon_last_src_clk >= g_clk0 && ga.ptr == mon_last_src_val);
@@ -680,14 +827,15 @@ void h_int(void) {
     }
   }
 #endif
-#if XV_INT_OP != 0
-  if (in_op != 0) {
+#if XV_IN_GROUP(1)
+  if (in_op == 1) {
     in_expected = nondet_uptr();
     env_on = 1; _Bool r = g_acquire_if_equal(&ga, &g_src, in_expected, in_order); env_on = 0;
     XV_OBL("he.guard_ops.operand_frame", guard_eq(&gb, &pre_b));
     if (xv_threw) {
       chk_exit(&ga, &gb);
-      XV_OBL("he.acquire_if_equal.exc_safe", xv_threw == XV_EXC_bad_hazard_era_alloc && gi1(&ga));
+      struct inv_res res = inv_eval(&ga, &gb);
+      XV_OBL("he.acquire_if_equal.exc_safe", xv_threw == XV_EXC_bad_hazard_era_alloc && gi1(&ga) && res.count_ok && g_td.hint == 0);
       XV_CANARY("int.aie.throw");
     } else {
       XV_OBL("he.acquire_if_equal.iff", mon_src_loads >= 1 && mon_src_loads <= 2 && r == (mon_last_src_val == in_expected));
@@ -709,3 +857,4 @@ void h_int(void) {
 #endif
 #endif
 }
+#endif
